@@ -108,10 +108,10 @@ claimed = {
   bounds=["7 workloads, 2-4 goroutines each plus the dependency's walker goroutines; up to 1500 (quick) / 20000 (thorough) schedules per workload (bounded search, not exhaustive: every explored schedule stands for its happens-before class)"],
   outside=["accesses inside badger, bigcache and gRPC (their models are atomic sections by assumption)", "workloads other than the listed ones; the gossip node's peer map (gossiper.nodes is iterated without the lock in processLackingParent: observation, gossip package not part of these workloads)", "before the DAG is loaded (CreateGenesis / LoadDag write dagLoaded under the lock while DagLoaded reads it without)"]),
  "C11": dict(
-  text="A virtual network of REAL gossiper structs (real GossipVrx / GossipTrx / gossipVertex / gossipTransaction / verifyGossipers / sendToAccountant / processLackingParent / GetVertex, real cache.Flashback over the bigcache model); peers are in-package clients that hand a deep copy of the message to the peer's real handler inside the goroutine the code starts per peer, so delivery order = goroutine schedule. One vertex: EVERY connected topology on 3 (quick) / 4 (thorough) nodes, every origin, ALL delivery orders within 1 preemption; all 38 connected 4-node topologies x 4 origins x one arbitrarily delayed directed link; the 4-cycle (with/without chord) under every order of the forwarding goroutines (bounded in quick, exhaustive in thorough): every node's ledger admits it exactly once, the origin's ledger is never offered its own vertex, nobody forwards before its own ledger accepted, at most n(n-1) messages. Awaited transaction: gossiped on every 3-node topology (one delayed link), then the vertex sealing it, then a late duplicate of the first message: stored once per node, sent at most once per link; two copies reaching a node together (4 nodes, 1 preemption). Parent + child on 3 nodes (bounded search): nothing admitted twice, forward-after-accept; delivery of the child when it overtakes its parent is the pinned known finding.",
+  text="A virtual network of REAL gossiper structs (real GossipVrx / GossipTrx / gossipVertex / gossipTransaction / verifyGossipers / sendToAccountant / processLackingParent / GetVertex, real cache.Flashback over the bigcache model); peers are in-package clients that hand a deep copy of the message to the peer's real handler inside the goroutine the code starts per peer, so delivery order = goroutine schedule. One vertex: EVERY connected topology on 3 nodes, every origin, ALL delivery orders within 1 (quick) / 2 (thorough) preemptions; all 38 connected 4-node topologies x 4 origins x one arbitrarily delayed directed link; the 4-cycle (with/without chord) under every order of the forwarding goroutines (bounded in quick, exhaustive in thorough): every node's ledger admits it exactly once, the origin's ledger is never offered its own vertex, nobody forwards before its own ledger accepted, at most n(n-1) messages. Awaited transaction: gossiped on every 3-node topology (one delayed link), then the vertex sealing it, then a late duplicate of the first message: stored once per node, sent at most once per link; two copies reaching a node together (4 nodes, 1 preemption). Parent + child on 3 nodes (bounded search): nothing admitted twice, forward-after-accept; delivery of the child when it overtakes its parent is the pinned known finding.",
   ref="DESIGN.md §4 C11",
   technique=TECH + "; message delivery orders = goroutine schedules enumerated by the engine's scheduler",
-  bounds=["n = 3 all graphs exhaustively at preemption bound 1 (quick; n = 4 in thorough)", "n = 4: all connected graphs x origin x (no or one delayed directed link), otherwise one fixed delivery order", "4-ring: 3000 schedules (quick) / all ~300000 non-preemptive schedules (thorough)", "transactions: 3 nodes all graphs (delayed link), 4-node kite at preemption bound 1", "two items: 3 nodes, budget 8000 schedules (not exhaustive)"],
+  bounds=["n = 3 all graphs exhaustively at preemption bound 1 (quick) / 2 (thorough)", "n = 4: all connected graphs x origin x (no or one delayed directed link), otherwise one fixed delivery order", "4-ring: 3000 schedules (quick) / all ~300000 non-preemptive schedules (thorough)", "transactions: 3 nodes all graphs (delayed link), 4-node kite at preemption bound 1", "two items: 3 nodes, budget 8000 schedules (not exhaustive)"],
   outside=["ledger double (contract of C03/C13), transparent signatures (forgery: C12), no recent-hash expiry within a run (20 s window), gRPC delivers or returns an error", "n >= 5, more than two items in flight"]),
 }
 
